@@ -52,15 +52,15 @@ func main() {
 	os.MkdirAll(filepath.Join(out, "src"), 0o777)
 	cfg := &packages.Config{
 		Mode: packages.NeedName | packages.NeedFiles | packages.NeedSyntax | packages.NeedTypes | packages.NeedTypesInfo | packages.NeedCompiledGoFiles,
-		Dir:  "/repo",
+		Dir:  root.Repo(),
 	}
 	pkgs, err := packages.Load(cfg, "./...")
 	if err != nil {
 		die("load: %v", err)
 	}
 	overlay := map[string]string{
-		"/repo/internal/codegen/zz_verif_hook.go":  root.Path("hooks", "codegen_hook.go"),
-		"/repo/internal/base/verifmap/verifmap.go": root.Path("hooks", "verifmap.go"),
+		root.RepoPath("internal/codegen/zz_verif_hook.go"):  root.Path("hooks", "codegen_hook.go"),
+		root.RepoPath("internal/base/verifmap/verifmap.go"): root.Path("hooks", "verifmap.go"),
 	}
 	var sites []string
 	var skipped []string
@@ -91,7 +91,7 @@ func main() {
 					return true
 				}
 				pos := p.Fset.Position(rs.Pos())
-				site := fmt.Sprintf("%s:%d", strings.TrimPrefix(pos.Filename, "/repo/"), pos.Line)
+				site := fmt.Sprintf("%s:%d", strings.TrimPrefix(pos.Filename, root.Repo()+"/"), pos.Line)
 				if !pure(rs.X) {
 					skipped = append(skipped, site+" (range expression is not a plain variable or field)")
 					return true
@@ -140,7 +140,7 @@ func main() {
 			if err := format.Node(&buf, p.Fset, f); err != nil {
 				die("print %s: %v", name, err)
 			}
-			dst := filepath.Join(out, "src", strings.TrimPrefix(name, "/repo/"))
+			dst := filepath.Join(out, "src", strings.TrimPrefix(name, root.Repo()+"/"))
 			os.MkdirAll(filepath.Dir(dst), 0o777)
 			if err := os.WriteFile(dst, buf.Bytes(), 0o666); err != nil {
 				die("%v", err)
